@@ -19,11 +19,11 @@ pub fn prop() -> Prop {
             Sub::enumerate("ellipses", ellipses),
             Sub::enumerate("rrect_equal", rrect_equal),
             Sub::enumerate("triangles_grid", triangles_grid),
-            Sub::tape("rrect_random", 24, 100_000, 5_000_000, rrect_random),
-            Sub::tape("round_random", 8, 20_000, 1_000_000, round_random),
-            Sub::tape("triangles_random", 12, 100_000, 5_000_000, triangles_random),
-            Sub::tape("sectors", 10, 60_000, 3_000_000, sectors).with_fp(),
-            Sub::tape("large_shapes", 24, 1_600, 80_000, large_shapes),
+            Sub::tape("rrect_random", 64, 100_000, 5_000_000, rrect_random),
+            Sub::tape("round_random", 16, 20_000, 1_000_000, round_random),
+            Sub::tape("triangles_random", 24, 100_000, 5_000_000, triangles_random),
+            Sub::tape("sectors", 16, 60_000, 3_000_000, sectors).with_fp(),
+            Sub::tape("large_shapes", 48, 1_600, 80_000, large_shapes),
         ],
     }
 }
